@@ -172,14 +172,18 @@ def _refusals(chk, ctx) -> None:
            'or the player cannot even call', got=f'missing: {missing}; unexpected: {extra}' if (missing or extra) else 'the four refusal rules')
     # break condition of the scan
     brk = False
+    unscanned = 0
     for p in ctx.paths(fi):
         if p.raised:
             continue
-        if any(e.kind == 'loop' and e.op == 'break' for e in p.events):
-            brk |= other in conds_of(p)
-    chk.ob('C03.S6', f'State.{name}:somebody_can_call', saw_nobody and brk, fi.loc,
-           'a bet/raise is refused when no other live player has chips beyond the current bet, and allowed as soon as one has',
-           got=f'refusal path under the negated test: {saw_nobody}; accepting path under the test: {brk}', want=T.show(other))
+        if any(e.kind == 'loop' and e.op == 'break' for e in p.events) and other in conds_of(p):
+            brk = True
+        else:
+            unscanned += 1          # a way to accept the bet / raise that never found an opponent who can call more
+    chk.ob('C03.S6', f'State.{name}:somebody_can_call', saw_nobody and brk and not unscanned, fi.loc,
+           'a bet/raise is refused when no other live player has chips beyond the current bet, and allowed only once one such player is found',
+           got=f'refusal path under the negated test: {saw_nobody}; accepting path under the test: {brk}; accepting paths without it: {unscanned}',
+           want=T.show(other))
     # order: the cap and short-all-in rules read the state of the round, not the amount
     chk.floor('C03.S6', 2)
 
